@@ -16,7 +16,8 @@ import tlc
 
 U = project.uncps
 
-PLANS = {"quick": [("fns", 1), ("logic", 2), ("arith", 1), ("strings", 1), ("misc", 1), ("fns", 4, 200), ("arith", 5, 200)],
+PLANS = {"quick": [("fns", 1), ("logic", 1), ("arith", 1), ("strings", 1), ("misc", 0), ("fns", 4, 200), ("arith", 5, 200), ("logic", 6, 400),
+                   ("misc", 3, 400), ("strings", 3, 150)],
          # measured: arith 2 = 110 k filters, strings 2 = 114 k, logic 3 = 412 k, misc 2 > 1.4 M: the larger ones are sampled
          "thorough": [("fns", 1), ("logic", 2), ("arith", 2), ("strings", 1), ("misc", 1), ("math", 1), ("fns", 6, 4000), ("arith", 6, 3000),
                       ("strings", 5, 3000), ("misc", 4, 3000), ("logic", 8, 3000)]}
@@ -149,6 +150,23 @@ def run(ctx):
         traces.append({"id": cid, "d": "sql", "tree": tree, "out": project.cps(o[1]), "nfields": 1, "aliased": [], "alias": project.cps("T1x")})
         info[cid] = ({"dialect": "sql", "fns": [fn], "probe": "pinned-template"}, probe, o[1], ("none", ""),
                      {"tree": tree, "text": project.cps(probe), "nops": 2, "nfields": 1, "leaves": [], "skels": []})
+    # decimal literals a binary double cannot carry (many significant digits, exponents beyond +-308): written down here
+    # because Sem's 32-bit rationals cannot hold them; only the structure / literal-content clauses apply
+    for spelling in ("0.1234567890123456789", "9007199254740993.0", "1e400", "1.5e-400", "123456789012345678901234567890.5", "+1.50", "1E3"):
+        for dname, tr in trans:
+            probe = "f gt %s" % spelling
+            o = tr.sql(probe)
+            if o[0] != "ok":
+                continue
+            leaf_f, lit = ["Id", [], "f"], ["Lit", "Float", spelling]
+            tables["leaves"][dname][json.dumps(leaf_f)] = [leaf_f, project.cps(tr.sql("f")[1])]
+            lo = tr.sql(spelling)
+            tables["leaves"][dname][json.dumps(lit)] = [lit, project.cps(lo[1] if lo[0] == "ok" else "")]
+            tree = ["Cmp", "gt", leaf_f, lit]
+            cid = len(traces) + 1
+            traces.append({"id": cid, "d": dname, "tree": tree, "out": project.cps(o[1]), "nfields": 1, "aliased": [], "alias": project.cps("T1x")})
+            info[cid] = ({"dialect": dname, "fns": [], "probe": "decimal-spelling"}, probe, o[1], ("none", ""),
+                         {"tree": tree, "text": project.cps(probe), "nops": 1, "nfields": 1, "leaves": [], "skels": []})
     validate(ctx, traces, info, tables)
     durations(ctx, trans)
     ctx.exhaustive = False
